@@ -423,10 +423,18 @@ static int tcp_receive(struct xcm_socket *__restrict s, void *__restrict buf,
 
     TP_RET_ERR_IF(ts->conn.bad, ts->conn.badness_reason);
 
-    if (try_finish_send(s) < 0 && errno != EAGAIN)
-	return errno == EPIPE ? 0 : -1;
-
+    /* Read before flushing: a broken pipe met while flushing a pending
+       outgoing frame must not hide complete messages the peer sent
+       before it closed the connection. The end of the connection is
+       reported by the read path only. */
     int rc = buffer_msg(s);
+
+    if (rc < 0 && errno == EAGAIN) {
+	if (try_finish_send(s) < 0 && errno != EAGAIN && errno != EPIPE)
+	    return -1;
+	errno = EAGAIN;
+    }
+
     if (rc <= 0)
 	return rc;
 
